@@ -266,6 +266,7 @@ pub fn dispatch(cmd: &str, name: &str, arg: &str) -> Option<String> {
     if name.starts_with("skip.") { return dispatch_skipgrad(cmd, name, arg); }
     if name.starts_with("learn.") { return dispatch_schedule(cmd, name, arg); }
     if name.starts_with("validate.") { return dispatch_validate(cmd, name, arg); }
+    if name == "feedback.tied" { return dispatch_tied(cmd, name, arg); }
     if name.starts_with("feedback.") { return dispatch_feedback(cmd, name, arg); }
     if name.starts_with("reshape.") { return dispatch_reshape(cmd, name, arg); }
     if !["conv", "deconv", "pool"].iter().any(|p| name.starts_with(p)) { return None; }
@@ -766,6 +767,69 @@ pub fn dispatch_reshape(cmd: &str, name: &str, arg: &str) -> Option<String> {
         tried += 1;
         let a = [c, h, w, c2, h2, w2];
         if let Err(e) = one(a) { return Some(format!("{{\"failed\":true,\"tried\":{},\"input\":{},\"detail\":{:?}}}", tried, fmt(a), e)); }
+    }}}}}}
+    Some(format!("{{\"failed\":false,\"tried\":{}}}", tried))
+}
+
+// ------------------------------------------------------------------------------------------------ weight tying of feedback blocks (C10)
+fn dense_params(l: &crate::network::Layer) -> Vec<f32> {
+    let mut out = Vec::new();
+    if let crate::network::Layer::Dense(d) = l {
+        if let Data::Double(w) = &d.weights.data { for r in w { for v in r { out.push(*v); } } }
+        if let Some(b) = &d.bias { if let Data::Single(b) = &b.data { for v in b { out.push(*v); } } }
+    }
+    out
+}
+/// a network dense -> feedback(len dense 2->2 layers x loops) -> dense, trained for `epochs`; afterwards every repetition of every block
+/// layer must hold the same parameters, and the reported parameter count must count them once
+pub fn tied_one(len: usize, loops: usize, bias: bool, acc: usize, adam: bool, epochs: i32, seed: u64) -> Result<(), String> {
+    let mut rng = Lcg(seed.wrapping_mul(104729).wrapping_add(5));
+    let mut net = crate::network::Network::new(Shape::Single(2));
+    let descr: Vec<crate::feedback::Layer> = (0..len).map(|j| crate::feedback::Layer::Dense(2, if j % 2 == 0 { Activation::Tanh } else { Activation::Linear }, bias, None)).collect();
+    net.feedback(descr, loops, false, false, acc_of(acc));
+    net.dense(1, Activation::Linear, false, None);
+    net.set_objective(crate::objective::Objective::MSE, None);
+    if adam { net.set_optimizer(crate::optimizer::Adam::create(0.01, 0.9, 0.999, 1e-8, None)); } else { net.set_optimizer(crate::optimizer::SGD::create(0.01, None)); }
+    let xs: Vec<Tensor> = (0..3).map(|_| Tensor::single(vec![rng.int(-2, 2) * 0.5, rng.int(-2, 2) * 0.5])).collect();
+    let ys: Vec<Tensor> = (0..3).map(|_| Tensor::single(vec![rng.int(-2, 2) * 0.5])).collect();
+    let xr: Vec<&Tensor> = xs.iter().collect();
+    let yr: Vec<&Tensor> = ys.iter().collect();
+    let check = |net: &crate::network::Network, when: &str| -> Result<(), String> {
+        if let crate::network::Layer::Feedback(block) = &net.layers[0] {
+            if block.layers.len() != len * loops { return Err(format!("{}: the block holds {} layers, expected {}", when, block.layers.len(), len * loops)); }
+            for l in 0..len { for r in 1..loops {
+                let a = dense_params(&block.layers[l]); let b = dense_params(&block.layers[l + r * len]);
+                if a.len() != b.len() || a.iter().zip(b.iter()).any(|(x, y)| x.to_bits() != y.to_bits()) {
+                    return Err(format!("{}: repetition {} of block layer {} holds different parameters than repetition 0", when, r, l));
+                }
+            }}
+            let per_layer = 2 * 2 + if bias { 2 } else { 0 };
+            if block.parameters() != len * per_layer { return Err(format!("{}: parameters() = {} but the block has {} shared parameters", when, block.parameters(), len * per_layer)); }
+            Ok(())
+        } else { Err("first layer is not a feedback block".into()) }
+    };
+    check(&net, "at creation")?;
+    let _ = net.learn(&xr, &yr, None, 2, epochs, None);
+    check(&net, "after training")
+}
+pub fn dispatch_tied(cmd: &str, name: &str, arg: &str) -> Option<String> {
+    if name != "feedback.tied" { return None; }
+    if std::env::var("VERIF_SHOW_PANIC").is_err() { std::panic::set_hook(Box::new(|_| {})); }
+    let fmt = |v: [u64; 7]| format!("{{\"layers\":{},\"loops\":{},\"bias\":{},\"accumulation\":{},\"adam\":{},\"epochs\":{},\"seed\":{}}}", v[0], v[1], v[2], v[3], v[4], v[5], v[6]);
+    let one = |v: [u64; 7]| -> Result<(), String> {
+        match std::panic::catch_unwind(move || tied_one(v[0] as usize, v[1] as usize, v[2] != 0, v[3] as usize, v[4] != 0, v[5] as i32, v[6])) { Ok(r) => r, Err(_) => Err("creating or training the block panicked".into()) }
+    };
+    if cmd == "run" {
+        let v: Vec<u64> = arg.split(|c: char| !c.is_ascii_digit()).filter(|x| !x.is_empty()).filter_map(|x| x.parse().ok()).collect();
+        if v.len() != 7 { return None; }
+        let a = [v[0], v[1], v[2], v[3], v[4], v[5], v[6]];
+        return Some(match one(a) { Ok(()) => format!("{{\"failed\":false,\"input\":{}}}", fmt(a)), Err(e) => format!("{{\"failed\":true,\"input\":{},\"detail\":{:?}}}", fmt(a), e) });
+    }
+    let mut tried = 0usize;
+    for l in 1..=2u64 { for n in 1..=3u64 { for b in 0..=1u64 { for acc in [0u64, 1, 2, 4] { for adam in 0..=1u64 { for e in 1..=2u64 {
+        tried += 1;
+        let a = [l, n, b, acc, adam, e, tried as u64];
+        if let Err(err) = one(a) { return Some(format!("{{\"failed\":true,\"tried\":{},\"input\":{},\"detail\":{:?}}}", tried, fmt(a), err)); }
     }}}}}}
     Some(format!("{{\"failed\":false,\"tried\":{}}}", tried))
 }
